@@ -392,6 +392,9 @@ def r4_fno_structure(repo: Repo, rep):
 
 
 def run(repo: Repo, rep):
+    from .generic import g_arg_constructor_parameters
+    g_arg_constructor_parameters(repo, rep, lambda m: m.endswith(".FNO"), floor=2,
+                                 why="a Fourier layer that ignores mode counts / channels is not the configured operator")
     r1_no_input_write(repo, rep)
     r2_r3_spectrum(repo, rep)
     r4_fno_structure(repo, rep)
